@@ -148,6 +148,10 @@ def typed_skeletons():
                                                          OP('Return'), OP('End'), OP('Drop'), OP('I32Const', value=L.fresh()), OP('Drop')])
     T('dead-empty-block-after-return', lambda L: [OP('I32Const', value=L.fresh()), OP('Drop'), OP('Return'), OP('Nop'), OP('Block', blockty=BT_EMPTY), OP('Nop'), OP('End'), OP('I32Const', value=L.fresh()), OP('Drop')])
     T('dead-empty-block-after-br', lambda L: [OP('Block', blockty=BT_EMPTY), OP('Br', relative_depth=u32(0)), OP('Block', blockty=BT_EMPTY), OP('End'), OP('End'), OP('I32Const', value=L.fresh()), OP('Drop')])
+    # block types with parameters and NO results (type 5 = [i32 i64] -> []): must stay type-index block types
+    T('mv-block-params-only', lambda L: [OP('I32Const', value=L.fresh()), OP('I64Const', value=sym(L.tagbase + '_q', 'i64')), OP('Block', blockty=BT_FUNC(5)), OP('Drop'), OP('Drop'), OP('End')])
+    T('mv-loop-params-only', lambda L: [OP('I32Const', value=L.fresh()), OP('I64Const', value=sym(L.tagbase + '_q', 'i64')), OP('Loop', blockty=BT_FUNC(5)), OP('Drop'), OP('Drop'), OP('End')])
+    T('mv-if-params-only', lambda L: [OP('I32Const', value=L.fresh()), OP('I64Const', value=sym(L.tagbase + '_q', 'i64')), OP('I32Const', value=L.fresh()), OP('If', blockty=BT_FUNC(5)), OP('Drop'), OP('Drop'), OP('Else'), OP('Drop'), OP('Drop'), OP('End')])
     T('locals', lambda L: [OP('LocalGet', local_index=u32(2)), OP('Drop'), OP('LocalGet', local_index=u32(0)), OP('LocalSet', local_index=u32(5)), OP('LocalGet', local_index=u32(1)), OP('LocalTee', local_index=u32(1)),
                            OP('Drop'), OP('LocalGet', local_index=u32(4)), OP('Drop')])
     return out
